@@ -296,6 +296,12 @@ func TestVerif_C03(t *testing.T) {
 	sample := func(c c03Case) any {
 		return map[string]any{"len": len(c.X), "limit": c.Limit, "x": vfQ(c.X[:min(len(c.X), 90)]), "exts": c.Exts, "path": vfChainStr(vfDetectAt(c.X, c.Limit))}
 	}
+	if vfOnlySub("static") {
+		vfRunStatic(t, "C03", 48)
+	}
+	if t.Failed() {
+		return
+	}
 	if vfOnlySub("builtin") {
 		vfRun(t, vfSub[c03Case]{Prop: "C03", Name: "builtin", Checks: vfN(80000, 16000000), Sample: sample, Check: c03Check,
 			Gen: func(t *rapid.T) c03Case {
